@@ -293,6 +293,17 @@ def run_check(prop, tier, replay=None):
                 proof["broken"] = "code-to-model equivalence (translator + Gen/GenP.v): " + g["detail"]
                 proof["log"] = g["detail"]
 
+    coqchk = None
+    if tier == "thorough" and proof.get("ok") and not replay:
+        # independent re-check of the compiled property file and everything it depends on
+        rc, out = sh("timeout 1500 coqchk -silent -o -Q . PV PV.Properties.%s" % prop, 1600, cwd=COQ)
+        m = re.search(r"\* Axioms:(.*?)\n\s*\n\* Constants/Inductives relying on type-in-type:(.*?)\n", out, flags=re.S)
+        coqchk = {"rc": rc, "axioms": m.group(1).strip() if m else "?", "type_in_type": m.group(2).strip() if m else "?", "tail": out[-600:]}
+        if rc != 0 or not m or m.group(1).strip() != "<none>" or m.group(2).strip() != "<none>":
+            proof["ok"] = False
+            proof["broken"] = "coqchk -o does not accept Properties/%s.vo axiom-free" % prop
+            proof["log"] = out[-1500:]
+
     rng = Rng("%s/%s/%d" % (prop, tier, seed))
     model_available = ok or (OCAML / "driver").exists()
 
@@ -436,6 +447,7 @@ def run_check(prop, tier, replay=None):
         "exhaustive": False, "exhaustive_subdomains": exhaustive if isinstance(exhaustive, (dict, list)) else {},
         "proof_ok": proof["ok"],
         "in_coq_cross_check_of_extraction": coq_shard,
+        "coqchk": coqchk,
     }
     ev["assumptions"] = getattr(mod, "ASSUMPTIONS", [])
     ev["violations"] = len(violations)
